@@ -104,7 +104,11 @@ Lemma ppf_timelike s f args a0 : func_kind f = "timelike" ->
 Proof. intros H. unfold parse_promql_func. rewrite H. reflexivity. Qed.
 
 Lemma ppf_arg1 s f args a0 : func_kind f = "arg1" ->
-  parse_promql_func s f args a0 = guarantee_label (set_returns s VVector) [str_of_expr (nth_error args 1)].
+  parse_promql_func s f args a0 =
+  match lit_of (nth_error args 1) with
+  | Some dst => guarantee_label (set_returns s VVector) [dst]
+  | None => set_returns s VVector
+  end.
 Proof. intros H. unfold parse_promql_func. rewrite H. reflexivity. Qed.
 
 Lemma ppf_vector s f args a0 : func_kind f = "vector" ->
@@ -133,16 +137,17 @@ Proof.
   destruct H as [H|[H|[H|[H Ha]]]].
   - rewrite (ppf_preserve _ _ _ _ H). split; [|reflexivity]. eapply le_perm_trans; [exact Hp | apply le_perm_guarantee].
   - rewrite (ppf_sort _ _ _ _ H). split; [exact Hp | reflexivity].
-  - rewrite (ppf_arg1 _ _ _ _ H). split; [|reflexivity]. eapply le_perm_trans; [exact Hp | apply le_perm_guarantee].
+  - rewrite (ppf_arg1 _ _ _ _ H). destruct (lit_of (nth_error args 1)); (split; [|reflexivity]);
+      [eapply le_perm_trans; [exact Hp | apply le_perm_guarantee] | exact Hp].
   - rewrite (ppf_timelike _ _ _ _ H). destruct args; [congruence|]. split; [|reflexivity].
     eapply le_perm_trans; [exact Hp | apply le_perm_guarantee].
 Qed.
 
 Lemma call_src_arg1_dst f args a0 es dst :
-  func_kind f = "arg1" -> nth_error args 1 = Some (EStr dst) -> nd es ->
+  func_kind f = "arg1" -> lit_of (nth_error args 1) = Some dst -> nd es ->
   can_have_label (call_src f args a0 es) dst = true.
 Proof.
-  intros H Hn Hnd. rewrite call_src_unfold, (ppf_arg1 _ _ _ _ H), Hn. cbn [str_of_expr].
+  intros H Hn Hnd. rewrite call_src_unfold, (ppf_arg1 _ _ _ _ H), Hn.
   apply can_have_guarantee_new; [|simpl; auto]. exact Hnd.
 Qed.
 
@@ -169,7 +174,7 @@ Proof.
     rewrite Hr. reflexivity.
   - apply String.eqb_eq in Hk. rewrite (ppf_scalar _ _ _ _ Hk). reflexivity.
   - apply String.eqb_eq in Hk. rewrite (ppf_timelike _ _ _ _ Hk). destruct args; reflexivity.
-  - apply String.eqb_eq in Hk. rewrite (ppf_arg1 _ _ _ _ Hk). reflexivity.
+  - apply String.eqb_eq in Hk. rewrite (ppf_arg1 _ _ _ _ Hk). destruct (lit_of (nth_error args 1)); reflexivity.
 Qed.
 
 (** ** absent *)
